@@ -66,16 +66,20 @@ pub fn apply(lib: Library) -> Result<Library, Vec<Diagnostic>> {
             LibraryElementKind::DataTypeDeclaration(decl) => {
                 match decl {
                     DataTypeDeclarationKind::Enumeration(decl) => {
-                        types_by_name.insert(
+                        insert_unique(
+                            &mut types_by_name,
                             decl.type_name.name.clone(),
                             DataTypeDeclarationKind::Enumeration(decl),
-                        );
+                            Problem::DeclarationNameDuplicated,
+                        )?;
                     }
                     DataTypeDeclarationKind::Subrange(decl) => {
-                        types_by_name.insert(
+                        insert_unique(
+                            &mut types_by_name,
                             decl.type_name.name.clone(),
                             DataTypeDeclarationKind::Subrange(decl),
-                        );
+                            Problem::DeclarationNameDuplicated,
+                        )?;
                     }
                     DataTypeDeclarationKind::Simple(decl) => {
                         // Can refer to other declarations, but does not have any declarations itself
@@ -84,22 +88,28 @@ pub fn apply(lib: Library) -> Result<Library, Vec<Diagnostic>> {
                         ));
                     }
                     DataTypeDeclarationKind::Array(decl) => {
-                        types_by_name.insert(
+                        insert_unique(
+                            &mut types_by_name,
                             decl.type_name.name.clone(),
                             DataTypeDeclarationKind::Array(decl),
-                        );
+                            Problem::DeclarationNameDuplicated,
+                        )?;
                     }
                     DataTypeDeclarationKind::Structure(decl) => {
-                        types_by_name.insert(
+                        insert_unique(
+                            &mut types_by_name,
                             decl.type_name.name.clone(),
                             DataTypeDeclarationKind::Structure(decl),
-                        );
+                            Problem::DeclarationNameDuplicated,
+                        )?;
                     }
                     DataTypeDeclarationKind::StructureInitialization(decl) => {
-                        types_by_name.insert(
+                        insert_unique(
+                            &mut types_by_name,
                             decl.type_name.name.clone(),
                             DataTypeDeclarationKind::StructureInitialization(decl),
-                        );
+                            Problem::DeclarationNameDuplicated,
+                        )?;
                     }
                     DataTypeDeclarationKind::String(decl) => {
                         // Can refer to other declarations, but does not have any declarations itself
@@ -108,36 +118,46 @@ pub fn apply(lib: Library) -> Result<Library, Vec<Diagnostic>> {
                         ));
                     }
                     DataTypeDeclarationKind::LateBound(decl) => {
-                        types_by_name.insert(
+                        insert_unique(
+                            &mut types_by_name,
                             decl.data_type_name.name.clone(),
                             DataTypeDeclarationKind::LateBound(decl),
-                        );
+                            Problem::DeclarationNameDuplicated,
+                        )?;
                     }
                 }
             }
             LibraryElementKind::FunctionDeclaration(decl) => {
-                elems_by_name.insert(
+                insert_unique(
+                    &mut elems_by_name,
                     decl.name.clone(),
                     LibraryElementKind::FunctionDeclaration(decl),
-                );
+                    Problem::DefinitionNameDuplicated,
+                )?;
             }
             LibraryElementKind::FunctionBlockDeclaration(decl) => {
-                elems_by_name.insert(
+                insert_unique(
+                    &mut elems_by_name,
                     decl.name.clone(),
                     LibraryElementKind::FunctionBlockDeclaration(decl),
-                );
+                    Problem::DefinitionNameDuplicated,
+                )?;
             }
             LibraryElementKind::ProgramDeclaration(decl) => {
-                elems_by_name.insert(
+                insert_unique(
+                    &mut elems_by_name,
                     decl.name.clone(),
                     LibraryElementKind::ProgramDeclaration(decl),
-                );
+                    Problem::DefinitionNameDuplicated,
+                )?;
             }
             LibraryElementKind::ConfigurationDeclaration(decl) => {
-                elems_by_name.insert(
+                insert_unique(
+                    &mut elems_by_name,
                     decl.name.clone(),
                     LibraryElementKind::ConfigurationDeclaration(decl),
-                );
+                    Problem::DefinitionNameDuplicated,
+                )?;
             }
         }
     }
@@ -153,6 +173,29 @@ pub fn apply(lib: Library) -> Result<Library, Vec<Diagnostic>> {
     elements.extend(sorted_ids.iter().filter_map(|id| elems_by_name.remove(id)));
 
     Ok(Library { elements })
+}
+
+/// Adds the declaration to the map of declarations by name, or returns
+/// a diagnostic when the name was already declared (the map must not
+/// silently replace the first declaration).
+fn insert_unique<V>(
+    declarations: &mut HashMap<Id, V>,
+    name: Id,
+    declaration: V,
+    problem: Problem,
+) -> Result<(), Vec<Diagnostic>> {
+    if let Some((existing, _)) = declarations.get_key_value(&name) {
+        return Err(vec![Diagnostic::problem(
+            problem,
+            Label::span(name.span.clone(), "Duplicate declaration"),
+        )
+        .with_secondary(Label::span(
+            existing.span.clone(),
+            "First declaration",
+        ))]);
+    }
+    declarations.insert(name, declaration);
+    Ok(())
 }
 
 struct DeclarationsGraph {
